@@ -73,7 +73,17 @@ def c41(ctx):
     outdir = ctx.path("traces", "bufpool", "x")[:-2]
     ctx.run([vc, "bufpool", outdir, str(ops), "60000"], timeout=900)
     index = json.load(open(os.path.join(outdir, "index.json")))
-    jobs = [(seg, f) for seg in index for f in seg["files"]]
+    # (c) the broker itself as a user of the default pool (hook mempool.VerifPool): same log format, same judge
+    rounds = 12 if ctx.quick else 120
+    ctx.run([vc, "brokerpool", outdir, str(rounds)], timeout=900)
+    bseg = json.load(open(os.path.join(outdir, "broker_index.json")))
+    if bseg["failed_flush_rounds"] < rounds // 2:
+        raise Inconclusive("broker pool scenario: the write loop was blocked in only %d of %d rounds" % (bseg["failed_flush_rounds"], rounds))
+    if bseg["garbled_rounds"]:
+        ctx.violation("broker as pool user: the healthy subscriber received bytes that differ from the encoded packets in %d of %d rounds "
+                      "(another client's output buffer shares a pooled buffer)" % (bseg["garbled_rounds"], rounds),
+                      {"scenario": "brokerpool", "rounds": rounds, "garbled_rounds": bseg["garbled_rounds"], "seed": ctx.seed})
+    jobs = [(seg, f) for seg in index + [bseg] for f in seg["files"]]
 
     def one(job):
         seg, f = job
@@ -91,9 +101,11 @@ def c41(ctx):
             tot[k] += v["stats"][k]
         for b in v["bad"]:
             tags = sorted(c["tag"] for c in b["complaints"])
-            if tags == ["harness-write"]:      # only ever follows a real complaint about the same buffer
+            if tags == ["harness-write"] and not seg.get("broker"):      # only ever follows a real complaint about the same buffer
                 garbled.append((b["line"], f))
                 continue
+            if seg.get("broker"):          # a Put by somebody who does not hold the buffer: returned twice / never taken
+                tags = ["put-by-non-holder" if t == "harness-write" else t for t in tags]
             hist = [json.loads(x) for x in open(f)][: b["line"]]
             hist = [e for e in hist if e["b"] == b["ev"]["b"]][-6:]
             ctx.violation("pool cap=%d, %d goroutines: BufPool refuses %s: %s (history of that buffer: %s)" %
@@ -123,7 +135,11 @@ def c41(ctx):
              "GetPooled/GetFresh (not held, Len 0, Cap <= cap), each rel a Write+Put by the holder with its bytes intact. "
              "distinct_nontrivial = hand-outs of a previously pooled buffer (the ones that can be shared / dirty / over cap)."
              % ("" if ctx.quick else ", sizes 0..3 cap 2", "8/16" if ctx.quick else "8/12/16", ops, len(jobs)),
-        samples=samples, exhaustive=False, hand_outs=tot)
+        samples=samples, exhaustive=False, hand_outs=tot, broker_pool_events=bseg["events"], broker_pool_rounds=rounds)
+    ctx.cov["rule"] += (" Broker as pool user: %d rounds of a real broker with a subscriber whose connection blocks and then fails every write "
+                        "(coalesced output buffer, failed flush, second flush attempt) plus a healthy subscriber compared byte for byte and 64 "
+                        "hand-outs to the harness; every GetBuffer/PutBuffer of the default pool logged by hook mempool.VerifPool (%d events), judged "
+                        "by the same trace specification (a Put by a non-holder is a complaint)." % (rounds, bseg["events"]))
     ctx.assumptions += ["pointer identity of *bytes.Buffer identifies a buffer object (a collected object's address may come back as a new, empty object: accepted as GetFresh)",
                         "the harness never touches a buffer after Put"]
 
